@@ -7,7 +7,9 @@
 //! payload[size]`.  Judged:
 //!  * top-level chunks tile the file exactly, MVER (size 4, value 18) first, MHDR (64 bytes) second
 //!  * every non-zero MHDR offset (relative to the start of the MHDR *payload*) lands on the header
-//!    of a top-level chunk of the named type, and every chunk that has an MHDR slot is named there
+//!    of a top-level chunk of the named type, and every chunk that has an MHDR slot is named there;
+//!    the MHDR flag word does not announce an MFBO (0x1) or MH2O (0x2, this crate's documented
+//!    convention) chunk that the file does not hold, and an MFBO chunk is announced
 //!  * MCIN is 256×16 bytes; every non-zero entry names the offset of an MCNK chunk and records its
 //!    size *including* the 8-byte chunk header (the repository's format document and its legacy
 //!    writer both use that convention); every MCNK is indexed, in file order
@@ -200,6 +202,24 @@ pub fn check_file(b: &[u8], stage: &str) -> (Option<Walked>, Vec<Fail>) {
                         );
                     }
                 }
+            }
+        }
+        // the flag word in front of the offsets names chunks too. wowdev: 0x1 = "contains MFBO";
+        // the crate's serializer documents "0x01: MFBO present, 0x02: MH2O present".
+        let flags = rd32(b, base).unwrap();
+        for (bit, name, both_ways) in [(0x1u32, b"MFBO", true), (0x2, b"MH2O", false)] {
+            let nm = name_str(name);
+            let present = !find_all(name).is_empty();
+            if flags & bit != 0 && !present {
+                f!(
+                    format!("mhdr-flag-announces-absent-chunk:{nm}"),
+                    "MHDR flags {flags:#x} announce a {nm} chunk (bit {bit:#x}) but the file has none"
+                );
+            } else if both_ways && present && flags & bit == 0 {
+                f!(
+                    format!("mhdr-flag-missing:{nm}"),
+                    "the file holds a {nm} chunk but MHDR flags {flags:#x} lack bit {bit:#x}"
+                );
             }
         }
     }
